@@ -243,8 +243,12 @@ func genIface(r *rand.Rand, idx int, placement string, stream string) IfaceJ {
 		// generator has to step aside, also when the type is reached through a pointer
 		lu := TyJ{K: "named", Pkg: pkgSrc, PkgName: "src", Name: "localUnexp"}
 		lu2 := lu
-		used["VisitNode"] = true
+		used["VisitNode"], used["VisitOnly"] = true, true
 		it.Methods = append(it.Methods, MethodJ{Name: "VisitNode", Params: []VarJ{{Type: TyJ{K: "pointer", Elem: &lu}}, {Type: lu2}},
+			Results: []VarJ{{Type: TyJ{K: "universe", Name: "error"}}}})
+		// … and when the pointer is the only mention of the type in the signature (nothing else reserves its name)
+		lu3 := lu
+		it.Methods = append(it.Methods, MethodJ{Name: "VisitOnly", Params: []VarJ{{Type: TyJ{K: "pointer", Elem: &lu3}}},
 			Results: []VarJ{{Type: TyJ{K: "universe", Name: "error"}}}})
 	}
 	if stream == "" && !used["CopyTo"] && r.Intn(3) == 0 {
